@@ -47,6 +47,11 @@ func vfGenerate(in input.Input, stub bool) (em skel.Emitted, text string, ok boo
 // exists in the pinned runtime (obligation 3 of DESIGN 3.12).
 func vfCheckAPI(em skel.Emitted) {
 	vfAssert(em.ParseErr == "", "the generated text is syntactically valid Go")
+	// every identifier the file uses is declared in it, imported, predeclared,
+	// or a current-package symbol the configuration names (none in this harness)
+	for _, u := range em.Unresolved {
+		vfAssert(u == "", "the generated code uses no identifier it does not declare: "+u)
+	}
 	for _, b := range em.Blocks {
 		for _, c := range b.Calls {
 			if c.Recv == "s" {
@@ -86,7 +91,7 @@ func VF_C01_api() {
 	switch vfChoice("creation", 4) {
 	case 0:
 		svc.Constructor = &ctor
-		svc.Args = []any{5, "@dep", "%p%"}
+		svc.Args = []any{5, "@dep", "%p%", "$gontainer", "!value pkg.V", "!tagged other"}
 	case 1:
 		svc.Value = &val
 	case 2:
